@@ -297,3 +297,30 @@ pub fn decode_rpcs(params: &CodecParams, chunks: &[Vec<u8>]) -> Decoded {
     });
     out
 }
+
+// ------------------------------------------------------------------------------------------------
+// (e) send log
+// ------------------------------------------------------------------------------------------------
+
+thread_local! {
+    static SENT_PRUNES: std::cell::RefCell<Vec<(PeerId, TopicHash, Option<u64>, Duration)>> =
+        const { std::cell::RefCell::new(Vec::new()) };
+}
+
+/// PRUNEs the behaviour hands to a peer's send queue on this thread, stamped with the virtual clock
+/// offset of that moment (delivery to the wire may happen much later).
+pub mod sent {
+    use super::{Duration, PeerId, SENT_PRUNES, TopicHash};
+
+    pub(crate) fn note(peer: &PeerId, rpc: &crate::types::RpcOut) {
+        if let crate::types::RpcOut::Prune(p) = rpc {
+            let rec = (*peer, p.topic_hash.clone(), p.backoff, super::clock::offset());
+            SENT_PRUNES.with(|l| l.borrow_mut().push(rec));
+        }
+    }
+
+    /// (peer, topic, backoff seconds, clock offset when queued) of every PRUNE queued since the last call.
+    pub fn take_prunes() -> Vec<(PeerId, TopicHash, Option<u64>, Duration)> {
+        SENT_PRUNES.with(|l| std::mem::take(&mut *l.borrow_mut()))
+    }
+}
